@@ -123,6 +123,8 @@ pub struct VMarket<T: Unsigned, const D: u8> {
     pub total_borrowing: VPool<T>,
     pub clocks: Clocks,
     pub insufficient_funding_reports: u32,
+    /// cumulative (funding cost - amount paid in collateral) reported as insufficient, per collateral token [long, short]
+    pub funding_shortfall: [T; 2],
     /// optional virtual inventory pools (shared across markets on chain)
     pub vi_swaps: Option<VPool<T>>,
     pub vi_positions: Option<VPool<T>>,
@@ -159,18 +161,13 @@ where
             total_borrowing: Default::default(),
             clocks: Default::default(),
             insufficient_funding_reports: 0,
+            funding_shortfall: Default::default(),
             vi_swaps: None,
             vi_positions: None,
         }
     }
 }
 
-macro_rules! bounds {
-    () => {
-        T: CheckedSub + std::fmt::Display + FixedPointOps<D>,
-        T::Signed: Num + std::fmt::Debug,
-    };
-}
 
 impl<T, const D: u8> BaseMarket<D> for VMarket<T, D>
 where
@@ -477,12 +474,15 @@ where
     }
     fn on_insufficient_funding_fee_payment(
         &mut self,
-        _cost: &T,
-        _paid_c: &T,
+        cost: &T,
+        paid_c: &T,
         _paid_s: &T,
-        _l: bool,
+        l: bool,
     ) -> gmsol_model::Result<()> {
         self.insufficient_funding_reports += 1;
+        let short = cost.checked_sub(paid_c).ok_or(gmsol_model::Error::Computation("shortfall"))?;
+        let i = ix(l);
+        self.funding_shortfall[i] = self.funding_shortfall[i].checked_add(&short).ok_or(gmsol_model::Error::Overflow)?;
         Ok(())
     }
 }
@@ -642,6 +642,7 @@ where
         (self.clocks.now - self.clocks.borrowing).hash(h);
         (self.clocks.now - self.clocks.funding).hash(h);
         self.insufficient_funding_reports.hash(h);
+        self.funding_shortfall.hash(h);
         self.vi_swaps.hash(h);
         self.vi_positions.hash(h);
     }
